@@ -1426,9 +1426,24 @@ class SpaceManager(SharedSpaceOperations):
 
         old_name = cells.name
 
-        for space in self._get_subs(cells.parent, skip_self=False):
-            space.clear_subs_rootitems()
-            space.cells[old_name].on_rename(name)
+        # Rename only the sub cells that are derived from ``cells``.
+        # Sub cells that are defined in the sub spaces or derived from
+        # other bases are not affected.
+        targets = [cells]
+        for space in self._get_subs(cells.parent):
+            c = space.cells.get(old_name)
+            if (c is not None and c.is_derived() and name not in space.cells):
+                bases = self.get_deriv_bases(c, defined_only=True)
+                if bases and bases[0] is cells:
+                    targets.append(c)
+
+        for c in targets:
+            c.parent.clear_subs_rootitems()
+            c.on_rename(name)
+
+        # Re-derive the rest, such as ``old_name`` in sub spaces
+        # derived from other bases
+        self.update_subs(cells.parent)
 
     def sort_cells(self, space):
         """Sort cells in a space
